@@ -27,6 +27,7 @@ fn streams(t: Tier) -> Vec<StreamDef> {
         st("bitflips", t.n(57 * 384, 57 * 384, 40, 57 * 384), true),
         st("flagwords", t.n(65536, 65536, 40, 65536), true),
         st("small_exhaustive", t.n(65793, 65793, 0, 65793), true),
+        st("per_type", t.n(38 * 41 * 8, 38 * 41 * 64, 60, 38 * 41 * 8), true),
     ]
 }
 
@@ -42,6 +43,8 @@ fn floors(t: Tier) -> Vec<(String, u64)> {
         ("avps.elements.err".into(), 1000),
         ("accepted.control".into(), 1000),
         ("accepted.data".into(), 1000),
+        ("per_type.ok".into(), 1000),
+        ("per_type.err".into(), 1000),
     ];
     for (a, _, _) in crate::spec::tables::ATTRS.iter() {
         f.push((format!("kind.{}.ok", a), 1));
@@ -366,6 +369,33 @@ fn run(ctx: &mut Ctx) {
         "small_exhaustive" => {
             let b = super::c01::small_input(ctx.idx);
             judge(ctx, &b, "small");
+        }
+        "per_type" => {
+            // the public per-type payload decoders against the reference's payload formats
+            let k = (ctx.idx % 38) as usize;
+            let len = ((ctx.idx / 38) % 41) as usize;
+            let attr = super::c02::PER_TYPE[k];
+            let p = if (ctx.idx / (38 * 41)) % 2 == 0 { wire::valid_payload(&mut ctx.rng, attr, len) } else { ctx.rng.bytes(len) };
+            let mut care = sdec::Care::new(p.len());
+            let want = sdec::decode_payload(attr, &p, 0, &mut care);
+            let mut key = vec![b'T', attr as u8];
+            key.extend_from_slice(&p);
+            ctx.rep.case(&key, true);
+            if let Some(run) = exec::decode_type(attr, &p, Rk::Slice) {
+                let wit = J::obj(vec![("attribute_type", J::U(attr as u64)), ("payload_hex", J::hex(&p))]);
+                match (&want, &run.out) {
+                    (Ok(b), Out::Ok(a)) => {
+                        ctx.rep.bucket("per_type.ok");
+                        if a.attr != attr || a.hidden || &a.body != b {
+                            ctx.violate(format!("C05:per-type:value-mismatch:attr{}", attr), format!("per-type decoder {} gives {:?}, reference {:?}", attr, a, b), wit);
+                        }
+                    }
+                    (Err(_), Out::Err(_)) => ctx.rep.bucket("per_type.err"),
+                    (Ok(b), Out::Err(e)) => ctx.violate(format!("C05:per-type:reference-accepts:crate-rejects:attr{}", attr), format!("reference {:?}, crate {}", b, errs_str(e)), wit),
+                    (Err(e), Out::Ok(a)) => ctx.violate(format!("C05:per-type:reference-rejects:crate-accepts:attr{}", attr), format!("reference {:?}, crate {:?}", e, a), wit),
+                    _ => ctx.rep.bucket("per_type.abnormal"),
+                }
+            }
         }
         _ => unreachable!(),
     }
